@@ -12,7 +12,7 @@
 (* index in `bad`, drops the current Parser session (until the next Reset) *)
 (* and goes on, so one rejected event does not hide the rest of the file.  *)
 (***************************************************************************)
-EXTENDS BklProps, Json, SequencesExt
+EXTENDS BklCli, Json, SequencesExt
 
 TraceFile == "trace.ndjson"
 Trace     == ndJsonDeserialize(TraceFile)
@@ -135,6 +135,30 @@ TEval ==
          j == JudgeEval(r, Ev)
      IN Verdict(IF j = "" THEN JudgeLaws(r, Ev, Ev.docs) ELSE j)
 
+(* one run of `bkl` over a materialised directory layout: layers resolved   *)
+(* from file names, $parent and symbolic links, merged and evaluated; with  *)
+(* a root set, every content read (observed with strace) lies inside it     *)
+FsOfEvent(e) ==
+  [p \in DOMAIN e.fs |->
+     IF e.fs[p].kind = "file" THEN [kind |-> "file", docs |-> e.fs[p].docs]
+     ELSE IF e.fs[p].kind = "symlink" THEN [kind |-> "symlink", target |-> e.fs[p].target]
+     ELSE [kind |-> "other"]]
+TRun ==
+  /\ IsEvent("Run") /\ Advance /\ Keep /\ UNCHANGED shas
+  /\ LET e == Ev
+         rt == IF "roots" \in DOMAIN e THEN SetRoots(FsOfEvent(e), NoRoot, e.roots) ELSE Ok(RootAt(e.root))
+         r == IF ~rt.ok THEN rt ELSE RunLayers(FsOfEvent(e), rt.v, e.inputs, e.skip, EnvOf(e))
+         j == IF ~r.ok /\ r.err = "undef" THEN "undef"
+              ELSE IF r.ok /\ ~e.ok THEN "spec evaluates, code failed"
+              ELSE IF ~r.ok /\ e.ok THEN "spec fails (" \o r.err \o "), code evaluated"
+              ELSE IF r.ok /\ r.v.outs # e.outs THEN "outputs differ"
+              ELSE IF "reads" \in DOMAIN e /\ \E i \in DOMAIN e.reads : ~Inside(e.root, e.reads[i])
+                   THEN "content read outside the root"
+              ELSE IF r.ok /\ "reads" \in DOMAIN e /\ {e.reads[i] : i \in DOMAIN e.reads} # r.v.reads
+                   THEN "files read differ from the resolved layers"
+              ELSE ""
+     IN Verdict(j)
+
 TDone ==
   /\ l = Len(Trace) + 1
   /\ JsonSerialize("result.json",
@@ -143,7 +167,7 @@ TDone ==
   /\ l' = l + 1
   /\ UNCHANGED <<docs, par, live, bad, nchk, nundef, shas>>
 
-TNext == TReset \/ TSkip \/ TMergeDocument \/ TDocuments \/ TOutput \/ TEval \/ TDone
+TNext == TReset \/ TSkip \/ TMergeDocument \/ TDocuments \/ TOutput \/ TEval \/ TRun \/ TDone
 TSpec == TInit /\ [][TNext]_vars
 
 (* every line is consumed by exactly one action *)
